@@ -201,7 +201,8 @@ func H_C17_CallSites() {
 				}
 				return 0
 			}
-			err = e.K.AddAllowedBidders(e.Ctx, 0, []types.AllowedBidder{{AuctionId: 0, Bidder: user(2), MaxBidAmount: newCap}})
+			// several entries in one call: one announcement for the whole list, before any of it is written
+			err = e.K.AddAllowedBidders(e.Ctx, 0, []types.AllowedBidder{{AuctionId: 0, Bidder: user(2), MaxBidAmount: newCap}, {AuctionId: 0, Bidder: user(3), MaxBidAmount: newCap}})
 		} else {
 			l.Clock = func() int {
 				ab, _ := e.K.AllowedBidder.Get(e.Ctx, collections.Join(uint64(0), addr(user(1))))
@@ -219,6 +220,9 @@ func H_C17_CallSites() {
 			if ok {
 				nd.Assert("C17.site-real-values", c.U[0] == 0 && c.I[0].Equal(newCap))
 				nd.Assert("C17.site-before-commit", c.Seq == 0)
+				if op == 3 {
+					nd.Assert("C17.site-announces-whole-list-once", c.N == 2 && len(l.Calls) == 1)
+				}
 			}
 		}
 	case 5, 6:
